@@ -663,6 +663,11 @@ func aliasProblems(body ast.Node, params map[string]bool, exempt map[string]bool
 
 // ---------------------------------------------------------------------------------------------
 
+func parseFile(repo, rel string) (*ast.File, error) {
+	fset := token.NewFileSet()
+	return parser.ParseFile(fset, filepath.Join(repo, rel), nil, 0)
+}
+
 func findFunc(f *ast.File, recv, name string) *ast.FuncDecl {
 	for _, d := range f.Decls {
 		fd, ok := d.(*ast.FuncDecl)
@@ -763,7 +768,7 @@ func (t *tr) items(stmts []ast.Stmt) string {
 
 func main() {
 	if len(os.Args) < 3 {
-		fmt.Fprintln(os.Stderr, "usage: gox <repo> <GoFns.v> [<SrcText.v> [<srctext.json>]]")
+		fmt.Fprintln(os.Stderr, "usage: gox <repo> <GoFns.v> [<SrcText.v> [<srctext.json> [<GoData.v>]]]")
 		os.Exit(2)
 	}
 	repo, out := os.Args[1], os.Args[2]
@@ -773,6 +778,12 @@ func main() {
 			js = os.Args[4]
 		}
 		if err := emitSrcText(repo, os.Args[3], js); err != nil {
+			fmt.Fprintln(os.Stderr, "gox:", err)
+			os.Exit(1)
+		}
+	}
+	if len(os.Args) >= 6 {
+		if err := emitData(repo, os.Args[5]); err != nil {
 			fmt.Fprintln(os.Stderr, "gox:", err)
 			os.Exit(1)
 		}
